@@ -293,7 +293,26 @@ fn canaries() {
     if judge_insert(&e, &w).is_empty() { bad("placeholder that is not the innermost simple name not flagged"); }
 }
 
+/// `c10 --miri-slice <seed> <cases> <max seconds>`: single-threaded, no files; the real filters (insert_dummy has unsafe
+/// newtype punning) run under the interpreter with the same reference filters as oracles.
+fn miri_slice(seed: u64, cases: usize, max_s: u64) -> i32 {
+    let mut rep = Report::new();
+    let deadline = std::time::Instant::now() + std::time::Duration::from_secs(max_s);
+    let cfg = GenCfg { max_classes: 4, max_fields: 2, max_methods: 2, max_params: 2, comment_chance: (1, 4), comments: maps::CommentClass::Plain, ..GenCfg::default() };
+    let mut i = 0u64;
+    while (i as usize) < cases && std::time::Instant::now() < deadline {
+        let mut rng = Rng::new(common::rng::case_seed(seed, "C10/miri", i));
+        rep.cur = ("miri".into(), i);
+        match i % 4 { 0 => remove_case::<2>(&mut rng, &mut rep, &cfg), 1 => remove_case::<3>(&mut rng, &mut rep, &cfg), _ => diff_case(&mut rng, &mut rep, &cfg) }
+        i += 1;
+    }
+    for v in rep.violations.values() { println!("SLICE-OBSERVATION {} ({}x)", v.signature, v.count); }
+    println!("MIRI-SLICE done cases={} (asked for {}) evaluations={} observations={}", i, cases, rep.evaluations, rep.violations.len());
+    0
+}
+
 fn main() {
+    if let Some((seed, n, max_s)) = common::miri::slice_args() { std::process::exit(miri_slice(seed, n, max_s)); }
     let mut ctx = Ctx::from_args("C10", 40, 420);
     let replay = load_replay(&mut ctx);
     canaries();
@@ -329,6 +348,11 @@ fn main() {
             meta.oblige(format!("at least one case with {k}"), rep.get(k) > 0);
         }
         meta.oblige("a class / method Add kept because a child remains", rep.get("insert.cell.class.Add.-.kids.kept") > 0 && rep.get("insert.cell.method.Add.-.kids.kept") > 0);
+        if ctx.tier == Tier::Thorough {
+            let r = common::miri::run_slice(&ctx, "c10", env!("CARGO_MANIFEST_DIR"), 120, 200, 285);
+            if let Some(line) = r.ub { rep.cur = ("miri".into(), 0); rep.violation(format!("miri: {line}"), json!({"how": "cargo +nightly miri run --offline -p c10 -- --miri-slice <seed> 120 200", "seed": ctx.seed as i64, "status": r.status})); }
+            meta.extra.insert("miri_slice".into(), json!(r.status));
+        } else { meta.extra.insert("miri_slice".into(), json!("not run in the quick tier")); }
     }
     std::process::exit(finish(&ctx, rep, meta));
 }
